@@ -63,6 +63,8 @@ impl<'a> TokenBasedLuaGenerator<'a> {
     }
 
     fn write_token_options(&mut self, token: &Token, space_check: bool) {
+        #[cfg(feature = "verif-hooks")]
+        crate::verif_hooks::token_trace::token(token, space_check);
         for trivia in token.iter_leading_trivia() {
             self.write_trivia(trivia);
         }
@@ -1394,6 +1396,8 @@ impl<'a> TokenBasedLuaGenerator<'a> {
                     })
                     .is_none()
                 {
+                    #[cfg(feature = "verif-hooks")]
+                    crate::verif_hooks::token_trace::raw(" ");
                     self.output.push(' ');
                 }
             }
@@ -1938,6 +1942,8 @@ impl<'a> TokenBasedLuaGenerator<'a> {
     }
 
     fn write_symbol(&mut self, symbol: &str) {
+        #[cfg(feature = "verif-hooks")]
+        crate::verif_hooks::token_trace::symbol(symbol, true);
         if self.currently_commenting {
             self.uncomment();
         } else if self.needs_space(symbol.chars().next().expect("symbol cannot be empty")) {
@@ -1947,6 +1953,8 @@ impl<'a> TokenBasedLuaGenerator<'a> {
     }
 
     fn write_symbol_without_space_check(&mut self, symbol: &str) {
+        #[cfg(feature = "verif-hooks")]
+        crate::verif_hooks::token_trace::symbol(symbol, false);
         if self.currently_commenting {
             self.uncomment();
         }
@@ -2616,12 +2624,16 @@ impl LuaGenerator for TokenBasedLuaGenerator<'_> {
     }
 
     fn write_variadic_type_pack(&mut self, variadic_type_pack: &VariadicTypePack) {
+        #[cfg(feature = "verif-hooks")]
+        crate::verif_hooks::token_trace::raw("...");
         self.push_str("...");
         self.write_type(variadic_type_pack.get_type());
     }
 
     fn write_generic_type_pack(&mut self, generic_type_pack: &GenericTypePack) {
         self.write_identifier(generic_type_pack.get_name());
+        #[cfg(feature = "verif-hooks")]
+        crate::verif_hooks::token_trace::raw("...");
         self.push_str("...");
     }
 }
@@ -2896,5 +2908,13 @@ mod test {
         --[[
         next comment ]]
         "###);
+    }
+}
+
+#[cfg(feature = "verif-hooks")]
+impl TokenBasedLuaGenerator<'_> {
+    /// Verification hook (read-only): the generator's classification of a comment trivia.
+    pub fn verif_is_single_line_comment(content: &str) -> bool {
+        is_single_line_comment(content)
     }
 }
